@@ -62,7 +62,8 @@ def sim_histories(run, root_kind, nobj, maxh, n, length, seed):
 
 
 def _job(args):
-    spec_name, nobj, hs, want, seed, wc = args
+    spec_name, nobj, hs, want, seed, wc = args[:6]
+    buffered = args[6] if len(args) > 6 else False
     env.install()
     spec = env.spec_by_name(spec_name)
     rnd = random.Random(seed)
@@ -72,7 +73,7 @@ def _job(args):
         missing = rnd.random() < 0.3
         try:
             problems, executed, diverged = hist.replay(spec, h, nobj, rnd=rnd, missing_init=missing,
-                                                       write_concern=wc, want=want)
+                                                       write_concern=wc, want=want, buffered=buffered)
         except Exception:  # noqa: BLE001
             import traceback
             problems, executed = [{"aspect": "harness", "step": -1, "detail": traceback.format_exc(limit=8)}], 0
@@ -80,12 +81,15 @@ def _job(args):
         for p in problems:
             st = h[p["step"]] if 0 < p.get("step", -1) < len(h) else {}
             out.append({"cls": spec_name, "aspect": p["aspect"], "detail": p["detail"], "step": p.get("step"),
+                        "buffered": buffered, "child_handle": p.get("child_handle"),
+                        "foreign_store": (p.get("first_toucher") is not None and p.get("handle_owner") is not None
+                                          and p.get("first_toucher") != p.get("handle_owner")),
                         "op": (st.get("op") or {}).get("op", st.get("a")), "handle": st.get("h"),
                         "nobj": nobj, "missing_init": missing, "write_concern": wc, "history": h})
     return out, n_steps
 
 
-def run_histories(run, prop, histories, root_kind, nobj, want, aspects, classes=None, wc_modes=(False,)):
+def run_histories(run, prop, histories, root_kind, nobj, want, aspects, classes=None, wc_modes=(False,), buffered=False):
     jobs = []
     seed = common.seed()
     for spec in env.specs(kind=root_kind):
@@ -94,8 +98,10 @@ def run_histories(run, prop, histories, root_kind, nobj, want, aspects, classes=
         for wc in wc_modes:
             if wc and spec.backend != "json":
                 continue
+            if buffered and spec.strategy is None:
+                continue
             for i, ch in enumerate(common.chunks(histories, 6)):
-                jobs.append((spec.name, nobj, ch, want, seed * 1000 + i, wc))
+                jobs.append((spec.name, nobj, ch, want, seed * 1000 + i, wc, buffered))
     random.Random(seed).shuffle(jobs)
     res = common.pmap(_job, jobs)
     for out, n_steps in res:
@@ -303,3 +309,19 @@ def merge_pairs(run, tier):
         if r2.violated != "C02_MergeEqualsNew":
             run.machinery_error(f"deviation flag {flag} of Merge.tla has no witness")
         run.cov.setdefault("deviation_witnesses", {})[flag] = str(r2.violated)
+
+
+def buffered_histories(run, prop, tier):
+    """Contract.tla behaviours (two objects + retained child handles, no outside writer) executed INSIDE
+    Class.buffer_backend() on the buffered classes: every result must be what it is unbuffered and the
+    file must hold the model document after the exit (C05 / C06 at nested depth)."""
+    rnd = random.Random(common.seed() + 5)
+    for rk in ("d", "l"):
+        hs = bfs_histories(run, rk, 2, 4, rnd, 700 if tier == "quick" else 60)
+        hs = [h for h in hs if all(s_["a"] != "ext" for s_ in h[1:])]
+        run.cov.setdefault("buffered_histories", {})[rk] = len(hs)
+        run_histories(run, prop, hs, rk, 2, ("ret", "raw"), ("ret", "raw"), buffered=True)
+        # one object with retained child handles (the known finding about a second object's store does not apply)
+        hs1 = bfs_histories(run, rk, 1, 3, rnd, 120 if tier == "quick" else 12)
+        hs1 = [h for h in hs1 if all(s_["a"] != "ext" for s_ in h[1:])]
+        run_histories(run, prop, hs1, rk, 1, ("ret", "raw"), ("ret", "raw"), buffered=True)
